@@ -1326,6 +1326,11 @@ def run(ctx):
     for cfg in ("plain", "fieldboost", "docboost", "mixed"):
         for lay in lls:
             tasks.append(("leaf", D, seed, cfg, lay, WEIGHTINGS))
+    if not quick:
+        for cfg in ("plain", "mixed"):
+            for lay in leaf_layouts(6):
+                tasks.append(("leaf", 6, seed, cfg, lay, WEIGHTINGS[:7]))
+                tasks.append(("leaf", 6, seed, cfg, lay, WEIGHTINGS[7:]))
     # ---- composition law ----------------------------------------------------
     plan = []   # (D, cfg, weighting, family, pathset, layout selector)
     W_MAIN = "bm25"
@@ -1359,20 +1364,24 @@ def run(ctx):
                  (4, "plain", "final", "two", "light", "rot9"),
                  (4, "plain", "freq", "multiterm", "light", "rot9")]
     else:
-        plan += [(4, "plain", W_MAIN, "leaf", "full", "all"),
+        # "x:" = the extended index family (every deletion subset of size 1-2 x
+        # every composition for D=4)
+        plan += [(4, "plain", W_MAIN, "leaf", "full", "x:all"),
                  (4, "plain", W_MAIN, "two", "full", "all"),
+                 (4, "plain", W_MAIN, "two", "light", "x:all"),
                  (4, "plain", W_MAIN, "three", "light", "rot2"),
                  (4, "plain", W_MAIN, "three_red", "mid", "all"),
                  (4, "plain", W_MAIN, "boost2", "mid", "rot3"),
                  (4, "plain", W_MAIN, "boost2_red", "mid", "all"),
                  (4, "plain", W_MAIN, "boost3", "mid", "all"),
                  (4, "plain", W_MAIN, "zero", "light", "all"),
-                 (4, "plain", W_MAIN, "const", "mid", "rot3"),
-                 (4, "plain", W_MAIN, "opaque", "mid", "rot3"),
-                 (4, "plain", W_MAIN, "nested", "light", "rot3"),
-                 (4, "plain", W_MAIN, "nested_boost", "light", "rot6"),
-                 (4, "plain", W_MAIN, "nested3", "light", "rot3"),
+                 (4, "plain", W_MAIN, "const", "mid", "rot2"),
+                 (4, "plain", W_MAIN, "opaque", "mid", "rot2"),
+                 (4, "plain", W_MAIN, "nested", "light", "rot2"),
+                 (4, "plain", W_MAIN, "nested_boost", "light", "rot3"),
+                 (4, "plain", W_MAIN, "nested3", "light", "rot2"),
                  (4, "plain", W_MAIN, "multiterm", "full", "all"),
+                 (4, "plain", W_MAIN, "multiterm", "light", "x:all"),
                  (5, "plain", W_MAIN, "two", "mid", "rot3"),
                  (5, "plain", W_MAIN, "three_red", "mid", "all"),
                  (5, "mixed", W_MAIN, "two_red", "full", "all"),
@@ -1397,7 +1406,11 @@ def run(ctx):
         if (family, D) not in sizes:
             sizes[(family, D)] = sum(1 for _ in gen(family, D))
         nsl = max(1, int(round(sizes[(family, D)] * cost_ms[pathset] / 4000.0)))
-        lays = comp_layouts(D, ctx.tier)
+        if sel.startswith("x:"):
+            sel = sel[2:]
+            lays = comp_layouts(D, "thorough")
+        else:
+            lays = comp_layouts(D, "quick")
         for li, lay in enumerate(lays):
             if sel.startswith("rot"):
                 m = int(sel[3:])
@@ -1412,8 +1425,10 @@ def run(ctx):
     ctx.extra["family_sizes"] = dict(("%s/U(%d)" % k, v) for k, v in sizes.items())
     ctx.extra["composition_searchers"] = nvar
     ctx.extra["leaf_index_variants"] = len(lls) * 4
-    ctx.extra["composition_index_variants_D4"] = len(comp_layouts(4, ctx.tier))
-    ctx.extra["composition_index_variants_D5"] = len(comp_layouts(5, ctx.tier))
+    ctx.extra["composition_index_variants_D4"] = len(comp_layouts(4, "quick"))
+    ctx.extra["composition_index_variants_D5"] = len(comp_layouts(5, "quick"))
+    if not quick:
+        ctx.extra["composition_index_variants_D4_extended"] = len(comp_layouts(4, "thorough"))
     ctx.extra["weightings"] = WEIGHTINGS
     ctx.extra["tasks"] = len(tasks)
     ctx.rule = (
